@@ -106,3 +106,33 @@ package gabi
 //@   requires p != nil
 //@   ensures value: result == p.SResponse
 //@   modifies nothing
+
+//@ # ---- challenge, range proofs, whole-proof verification ----
+//@ pred rsok(s, rp, idx, pk) := s != nil && rp != nil && s.index == idx && len(s.cRep) == len(rp.Cs) && s.sign == rp.Sign && s.a == rp.A && s.k != nil && rp.K != nil && val(s.k) == val(rp.K) && s.ld == rp.Ld && s.ld <= pk.Params.Lm && (rp.Sign == 1 || rp.Sign == 0 - 1) && (len(rp.Cs) == 3 ==> rp.A == 4)
+//@ pred rangepresent(p) := forall idx in dom(p.RangeProofs) :: forall i in 0..len(p.RangeProofs[idx]) :: p.RangeProofs[idx][i] != nil
+
+//@ func createChallenge
+//@   property C02 C15 C08
+//@   requires context != nil && nonce != nil && forall i in 0..len(contributions) :: contributions[i] != nil
+//@   ensures value: result != nil && fresh(result) && val(result) >= 0
+//@   modifies nothing
+//@   assert at common.HashCommit count: len($0) == len(contributions) + 2
+//@   assert at common.HashCommit first: $0[0] == context
+//@   assert at common.HashCommit last: $0[len(contributions) + 1] == nonce
+//@   assert at common.HashCommit middle: forall j in 0..len(contributions) :: $0[j + 1] == contributions[j]
+//@   assert at common.HashCommit flag: $1 == issig
+
+//@ func (*ProofD).reconstructRangeProofStructures
+//@   property C12 C08
+//@   requires p != nil && wfpk(pk) && rangepresent(p)
+//@   ensures ok: err == nil ==> p.cachedRangeStructures != nil && forall idx in dom(p.cachedRangeStructures) :: in(p.RangeProofs, idx) && len(p.cachedRangeStructures[idx]) == len(p.RangeProofs[idx]) && forall i in 0..len(p.cachedRangeStructures[idx]) :: p.cachedRangeStructures[idx][i] != nil && p.cachedRangeStructures[idx][i].index == idx
+//@   modifies p.cachedRangeStructures
+//@   assert at ExtractStructure index: $1 == index
+//@   loop 0 invariant p.cachedRangeStructures != nil && fresh(p.cachedRangeStructures)
+//@   loop 0 invariant forall idx in dom(p.cachedRangeStructures) :: in(p.RangeProofs, idx) && len(p.cachedRangeStructures[idx]) == len(p.RangeProofs[idx]) && forall i in 0..len(p.cachedRangeStructures[idx]) :: p.cachedRangeStructures[idx][i] != nil && p.cachedRangeStructures[idx][i].index == idx
+//@   loop 0 modifies mapof(p.cachedRangeStructures), onlyfresh("rangeproof.ProofStructure")
+//@   loop 1 invariant p.cachedRangeStructures != nil && fresh(p.cachedRangeStructures) && in(p.cachedRangeStructures, index) && in(p.RangeProofs, index) && 0 <= $i && $i <= len(proofs) && len(p.cachedRangeStructures[index]) == $i
+//@   loop 1 invariant forall j in 0..$i :: p.cachedRangeStructures[index][j] != nil && p.cachedRangeStructures[index][j].index == index
+//@   loop 1 invariant forall idx in dom(p.cachedRangeStructures) :: idx != index ==> in(p.RangeProofs, idx) && len(p.cachedRangeStructures[idx]) == len(p.RangeProofs[idx])
+//@   loop 1 modifies elems(p.cachedRangeStructures[index])
+//@   mustfail canary: err != nil
